@@ -177,7 +177,7 @@ func FromStore(d *adoc.Doc) (*Map, error) {
 func (m *Map) Nodes(ns xsel.NodeSet) ([]*adoc.Node, error) {
 	out := make([]*adoc.Node, len(ns))
 	for i, c := range ns {
-		a, ok := m.ToA[c]
+		a, ok := m.ToA[Canon(c)]
 		if !ok {
 			return nil, fmt.Errorf("result node %d (%s, pos %d) is not a node of the queried document", i, Describe(c), c.Pos())
 		}
